@@ -2158,6 +2158,7 @@ fn part_l1x(ctl: &Ctl, rep: &mut Report) {
     }
     if complete {
         rep.count(&format!("l1x:d{}:complete-shards", depth));
+        rep.count("l1x:complete-shards");
         rep.exhaustive = Some(true);
     } else {
         rep.count("l1x:budget-cut");
